@@ -9,6 +9,7 @@ pub mod c18;
 pub mod c34;
 pub mod c35;
 pub mod conv;
+pub mod gt;
 pub mod oracle;
 pub mod perp;
 pub mod pure;
@@ -35,6 +36,8 @@ pub const REGISTRY: &[(&str, fn(&mut Ctx))] = &[
     ("C26", conv::run_c26),
     ("C27", conv::run_c27),
     ("C29", oracle::run_c29),
+    ("C30", gt::run_c30),
+    ("C31", gt::run_c31),
     ("C34", c34::run),
     ("C35", c35::run),
     ("C43", conv::run_c43),
